@@ -2,6 +2,7 @@
 (* Statements only; the proofs are in Proofs/Heap.v and Proofs/EvalRel.v.      *)
 From TL Require Import Base.Base Model.Reader Model.Printer Model.Store Model.Eval Model.Init Model.Api.
 From TL Require Import Proofs.Heap Proofs.EvalRel.
+From TL Require Import Proofs.Build.
 Local Open Scope list_scope.
 
 (* The list-building primitives the library functions are written with, on    *)
@@ -39,6 +40,20 @@ Proof. intros. eapply eval_string_mono; eassumption. Qed.
 Print Assumptions C11_copy_writes_nothing. Print Assumptions C11_append_writes_one_destination_cell.
 Print Assumptions C11_push_writes_the_terminator. Print Assumptions C11_other_lists_read_the_same.
 Print Assumptions C11_after_copy_all_lists_read_the_same. Print Assumptions C11_repeatable.
+
+(* Library functions that return a new list (mapcar, seq-filter, list, append,  *)
+(* backquote, sort's merge, alist / plist constructors) build it on a new       *)
+(* empty-list object by push and append (ctx.map, ctx.filter, eval_each,        *)
+(* eval_back_quote in the source).  Whatever the sequence of pushes and appends, *)
+(* whatever the heap: no cell that existed before is written, so every argument  *)
+(* list - and every other object - reads the same afterwards.                    *)
+Theorem C11_constructions_write_no_old_cell : forall h ops h' a, wfh h -> build h ops = Ok (h', a) ->
+  same_below (hnext h) h h' /\
+  forall fuel x, below fuel h (hnext h) x = true -> abs fuel h' x = abs fuel h x.
+Proof.
+  intros h ops h' a W H. split; [apply (build_fresh _ _ _ _ W H)|exact (build_leaves_old_objects _ _ _ _ W H)].
+Qed.
+Print Assumptions C11_constructions_write_no_old_cell.
 
 (* non-vacuity: a literal inside a function body after appends and splices *)
 Definition F0 : fops :=
